@@ -32,6 +32,8 @@ func (i *IRCServer) Marshal(lastIncludedIndex uint64) ([]byte, error) {
 	defer i.sessionsMu.RUnlock()
 	i.ConfigMu.RLock()
 	defer i.ConfigMu.RUnlock()
+	i.lastProcessedMu.RLock()
+	defer i.lastProcessedMu.RUnlock()
 	sessions := make([]*pb.Snapshot_Session, 0, len(i.sessions))
 	for id, session := range i.sessions {
 		channels := make([]string, 0, len(session.Channels))
